@@ -3,6 +3,8 @@
 coefficients, tendon limits and friction loss, equalities) and states reached by settling (k mj_step calls from a
 generated state).  All randomness is drawn from Hypothesis.
 """
+import re
+
 import numpy as np
 from hypothesis import strategies as st
 
@@ -13,8 +15,9 @@ KNOWN_COMPUTEY = 'pre and post-count of Y_rownnz'
 
 def reduced_M(m):
   """True if some dof's row of the sparse inertia matrix has fewer entries than its chain of ancestor dofs ('simple'
-  dofs with diagonal inertia).  This is the input class of known finding C10/computeY-simple-dof (sparse Jacobian + dual
-  solver raises an engine error); checks keep dual solvers on dense storage for such models and count the exclusion."""
+  dofs with diagonal inertia).  This is the input class of known finding C10/computeY-simple-dof (sparse Jacobian + anything
+  that builds the whitened Jacobian Y: PGS, noslip or the diagexact flag, raises an engine error); checks keep those on dense
+  storage for such models and count the exclusion."""
   par = np.asarray(m.dof_parentid)
   nnz = np.asarray(m.M_rownnz)
   for i in range(int(m.nv)):
@@ -76,11 +79,26 @@ def cases(draw, max_bodies=5, actuators=True, integrators=('Euler', 'implicit', 
     dj['frictionloss'] = mg.fmt(draw(mg.num(0.01, 3)))
   if draw(st.integers(0, 3)) == 0:
     dj['margin'] = mg.fmt(draw(mg.num(0, 0.1)))
+  # polynomial joint damping f(v) = -(a v + b v|v| + c v^3) (doc joint/damping): default class and/or explicit joints
+  polydamp = draw(st.integers(0, 2)) == 0
+  if polydamp:
+    if draw(st.booleans()):
+      dj['damping'] = mg.fmt([draw(mg.num(0, 1)), draw(mg.num(0, 1)), draw(mg.num(0, 0.5))])
+    coefs = [(draw(mg.num(0, 1)), draw(mg.num(0, 0.5))) for _ in range(4)]
+    cnt = [0]
+
+    def poly(mo):
+      b, c = coefs[cnt[0] % len(coefs)]
+      cnt[0] += 1
+      return '%sdamping="%s %s %s"' % (mo.group(1), mo.group(2), mg.fmt(b), mg.fmt(c))
+    xml = re.sub(r'(<joint [^>]*?)damping="([^" ]+)"', poly, xml)
   dflt = ''
   if dg or dj:
     dflt = '<default>%s%s</default>' % ('<geom%s/>' % mg._attrs(dg) if dg else '', '<joint%s/>' % mg._attrs(dj) if dj else '')
     xml = xml.replace('<mujoco>', '<mujoco>' + dflt, 1)
     gm.info['labels'] = sorted(set(gm.info['labels']) | {'default:' + k for k in list(dg) + list(dj)})
+  if polydamp:
+    gm.info['labels'] = sorted(set(gm.info['labels']) | {'polydamping'})
   # explicit pairs floor-geom with anisotropic friction
   # (only geoms of bodies that carry a joint: an explicit pair between two static geoms makes mj_forward fail in this
   #  tree with dense Jacobians + islands, see the C10 report; such models are kept out of the generator)
@@ -110,7 +128,10 @@ def cases(draw, max_bodies=5, actuators=True, integrators=('Euler', 'implicit', 
   # solver / storage used while settling (applied after compilation; the compiled model itself uses Newton + dense)
   solver = draw(st.sampled_from(['Newton', 'CG', 'PGS']))
   jacobian = draw(st.sampled_from(['dense', 'sparse']))
-  return Case(gm, seed, nsettle, cone, vel, pos, solver=solver, jacobian=jacobian)
+  diagexact = draw(st.integers(0, 2)) == 0      # exact diagonal of A for the impedance (enable flag, off by default)
+  if diagexact:
+    gm.info['labels'] = sorted(set(gm.info['labels']) | {'diagexact'})
+  return Case(gm, seed, nsettle, cone, vel, pos, solver=solver, jacobian=jacobian, diagexact=diagexact)
 
 
 def prepare(lib, case, ck=None, ctrl=True, forces=True):
@@ -126,9 +147,11 @@ def prepare(lib, case, ck=None, ctrl=True, forces=True):
   E = lib.enums
   m.opt.cone = E.mjCONE_ELLIPTIC if case.cone == 'elliptic' else E.mjCONE_PYRAMIDAL
   m.opt.noslip_iterations = 0
+  if case.get('diagexact'):
+    m.opt.enableflags = int(m.opt.enableflags) | E.mjENBL_DIAGEXACT
   m.opt.solver = dict(Newton=E.mjSOL_NEWTON, CG=E.mjSOL_CG, PGS=E.mjSOL_PGS)[case.get('solver', 'Newton')]
   m.opt.jacobian = E.mjJAC_SPARSE if case.get('jacobian', 'dense') == 'sparse' else E.mjJAC_DENSE
-  if m.opt.solver == E.mjSOL_PGS and m.opt.jacobian == E.mjJAC_SPARSE and reduced_M(m):
+  if (m.opt.solver == E.mjSOL_PGS or case.get('diagexact')) and m.opt.jacobian == E.mjJAC_SPARSE and reduced_M(m):
     # input class of known finding C10/computeY-simple-dof, excluded by construction (counted)
     m.opt.jacobian = E.mjJAC_DENSE
     if ck:
